@@ -28,10 +28,10 @@ M = [
   "        for (size_t i=0; i<jobs.size(); i++) job_map[jobs[i]] = workers[i]; ",
   "        for (size_t i=0; i<jobs.size(); i++) job_map[jobs[i]] = workers[i] % 2; ",
   "non-root ranks fold the worker ids of the returned map: needs >= 3 ranks and a job run by rank >= 2"),
- ("M07_split_colour_arith", ["C06", "C13"], "src/pomerol/TwoParticleGFContainer.cpp",
+ ("M07_split_colour_arith", ["C06"], "src/pomerol/TwoParticleGFContainer.cpp",
   "        int color = i*ncolors/ncomponents;",
   "        int color = i*ncolors/(ncomponents+1);",
-  "element colours computed with a wrong divisor: the last colour gets no component / roots mismatch; needs ranks >= components >= 2"),
+  "element colours computed with a different divisor: components are merely distributed less evenly over the colours (some colour may idle); every component is still computed and broadcast correctly - an equivalent mutant, *negative control*"),
  ("M08_alias_perm_swapped", ["C13"], "include/pomerol/IndexContainer4.h",
   "                ElementWithPermFreq<ElementType>(pElement,permutations4[7])));",
   "                ElementWithPermFreq<ElementType>(pElement,permutations4[6])));",
@@ -64,10 +64,10 @@ M = [
   "        req = Comm.irecv(boss, MPI_ANY_TAG, current_job_);\n        if(is_finished()) req.cancel();",
   "        if(!is_finished()) req = Comm.irecv(boss, MPI_ANY_TAG, current_job_);",
   "'optimisation': do not re-post after Finish - but req then still refers to the completed request; behaviour-preserving, *negative control*"),
- ("M16_split_sender_last_of_colour", ["C06", "C13"], "src/pomerol/TwoParticleGFContainer.cpp",
+ ("M16_split_sender_last_of_colour", ["C06"], "src/pomerol/TwoParticleGFContainer.cpp",
   "        if (!color_roots.count(color)) color_roots[color]=p;",
   "        color_roots[color]=p;",
-  "the pre-fix D1 behaviour: last rank of a colour as sender"),
+  "the pre-fix D1 behaviour: last rank of a colour as sender: zero frequency tables when a colour has >= 2 ranks (terms are unaffected, so C13 does not and should not see it)"),
  ("M17_omp_shared_index", ["C06"], "src/pomerol/TwoParticleGF.cpp",
   "            for (int w = 0; w < wsize; ++w) {\n                (*data_)[w] += ",
   "            for (int w = 0; w < wsize; ++w) {\n                (*data_)[(w + omp_get_thread_num()) % wsize] += ",
